@@ -7,7 +7,7 @@ Lc(j) == <<"l", j>>
 (* building and back-propagating a private graph that uses the shared UNTRACKED tensor, resets, random constructors  *)
 MC_Menu == <<
   << <<"op", <<S(1), S(3)>>, "mul">>, <<"op", <<Lc(1)>>, "sumalong">>, <<"cmp", <<Lc(1), S(2)>>>>, <<"op", <<S(6), S(2)>>, "mul">> >>,           \* forward chain on the shared parameter
-  << <<"leaf", TRUE>>, <<"op", <<Lc(1), S(3)>>, "mul">>, <<"op", <<Lc(2)>>, "relu">>, <<"bp", Lc(3)>> >>,        \* private graph over the shared untracked tensor, back-propagated
+  << <<"leaf", TRUE>>, <<"op", <<Lc(1), S(3)>>, "mul">>, <<"op", <<Lc(2)>>, "relu">>, <<"op", <<Lc(3)>>, "varalong">>, <<"bp", Lc(4)>> >>,        \* private graph over the shared untracked tensor, back-propagated (VarAlong: a backward rule that itself computes with several helper tensors)
   << <<"op", <<S(1)>>, "sigmoid">>, <<"op", <<Lc(1), S(2)>>, "mse">>, <<"rand">>, <<"op", <<S(1), Lc(3)>>, "mul">>, <<"op", <<S(6)>>, "tanh">> >>, \* activation + loss on the parameter, a random constructor
   << <<"leaf", TRUE>>, <<"op", <<Lc(1), Lc(1)>>, "mul">>, <<"bp", Lc(2)>>, <<"reset", Lc(1), TRUE>>, <<"op", <<Lc(1), S(2)>>, "matmul">>, <<"bp", Lc(3)>> >>,  \* train-like private loop
   << <<"op", <<S(1)>>, "transpose">>, <<"op", <<Lc(1), S(2)>>, "concat">>, <<"op", <<Lc(2)>>, "softmax">>, <<"op", <<S(1)>>, "fc">>, <<"op", <<Lc(4), S(2)>>, "bce">>, <<"op", <<S(2)>>, "slice">> >>,  \* shape ops, a SHARED layer object, a loss
